@@ -228,7 +228,7 @@ func (w *seqWorld) newPlan(cancel context.CancelFunc, what string) *enumPlan {
 	r := w.r
 	modes := []int{enumNone, enumError, enumError, enumCancelGoOn}
 	if w.mode.silentStop {
-		modes = []int{enumCancelSilent, enumCancelSilent, enumCancelSilent, enumError, enumNone}
+		modes = []int{enumNone, enumError, enumError, enumCancelGoOn, enumCancelSilent, enumCancelSilent}
 	}
 	m := vlib.Pick(r, modes)
 	if m == enumNone {
